@@ -60,7 +60,7 @@ def body_validate_first(c0, c1, target, body):
 
 def h_validate_first(c0: bytes, c1: bytes, target: int, body: bytes) -> bool:
     """
-    pre: len(c0) <= 2 and len(c1) <= 2 and len(body) <= ctx.b.blen and 0 <= target < 5
+    pre: len(c0) <= 2 and len(c1) <= 2 and len(body) <= ctx.b.blen and 0 <= target < 6
     post: _
     """
     return run(body_validate_first, c0, c1, target, body)
@@ -181,6 +181,115 @@ def h_ical_validate(parse_fails: bool, has_errors: bool, t_top: str, t_sub: str,
     return run(body_ical_validate, parse_fails, has_errors, t_top, t_sub, t_subsub, has_sub, has_subsub)
 
 
+VC = b"BEGIN:VCARD\r\nVERSION:3.0\r\nFN:Jane Doe\r\nN:Doe;Jane;;;\r\n%sEND:VCARD\r\n"
+IC = (b"BEGIN:VCALENDAR\r\nVERSION:2.0\r\nPRODID:-//x//y//EN\r\nBEGIN:VEVENT\r\nUID:u1\r\nDTSTAMP:20200101T000000Z\r\n"
+      b"DTSTART:20200101T000000Z\r\n%sEND:VEVENT\r\nEND:VCALENDAR\r\n")
+CORPUS = [
+    # (content type, body, well-formed?)
+    ("text/vcard", VC % b"", True),
+    ("text/vcard", VC % "NOTE:caf\u00e9 \\, ok\r\n".encode("utf-8"), True),
+    ("text/vcard", VC % b"EMAIL;TYPE=work,pref:j@example.com\r\n", True),
+    ("text/vcard", b"", False),
+    ("text/vcard", b"hello world", False),
+    ("text/vcard", (VC % b"")[:40], False),
+    ("text/vcard", b"VERSION:3.0\r\nFN:x\r\n", False),
+    ("text/vcard", VC % b"this line is just arbitrary text\r\n", False),
+    ("text/vcard", VC % b"\x01\x02\x07\r\n", False),
+    ("text/calendar", IC % b"SUMMARY:ok\r\n", True),
+    ("text/calendar", IC % "SUMMARY:caf\u00e9\\, d\r\nBEGIN:VALARM\r\nACTION:DISPLAY\r\nDESCRIPTION:x\r\nTRIGGER:-PT5M\r\nEND:VALARM\r\n".encode("utf-8"), True),
+    ("text/calendar", IC % b"RRULE:FREQ=DAILY;COUNT=3\r\n", True),
+    ("text/calendar", b"", False),
+    ("text/calendar", b"hello world", False),
+    ("text/calendar", (IC % b"")[:60], False),
+    ("text/calendar", IC % b"SUMMARY:bad\x0cchar\r\n", False),
+    ("text/calendar", IC % b"BEGIN:VALARM\r\nACTION:DISPLAY\r\nDESCRIPTION:bad\x01\r\nTRIGGER:-PT5M\r\nEND:VALARM\r\n", False),
+]
+
+
+def body_corpus(i, backend_vdir):
+    """A corpus of real bodies (valid ones and one member of every invalid class of the statement) through the REAL
+    icalendar / vobject parsers and the real stores: invalid => refused and nothing stored; valid => stored, and
+    uploading the served bytes again changes nothing.  Index chosen by the solver; the bodies are concrete (the
+    parsers concretise under CrossHair), so this is a corpus check, not a bounded-exhaustive one."""
+    import tempfile
+    import shutil
+    try:
+        from crosshair import realize
+        from crosshair.tracers import NoTracing
+        i, backend_vdir = realize(i), realize(backend_vdir)
+    except ImportError:
+        import contextlib
+        NoTracing = contextlib.nullcontext
+    with NoTracing():
+        ctype, body, good = CORPUS[i]
+        import importlib.util
+        # pristine store / file modules (the harness process substitutes the model into the imported ones)
+        ns = _PRISTINE
+        d = tempfile.mkdtemp(prefix="xv-c14-")
+        try:
+            if backend_vdir:
+                store = ns["vdir"].VdirStore.create(d + "/c")
+            else:
+                store = ns["git"].BareGitStore.create_memory()
+            store.load_extra_file_handler(ns["icalendar"].ICalendarFile)
+            store.load_extra_file_handler(ns["vcard"].VCardFile)
+            name = "x.vcf" if ctype == "text/vcard" else "x.ics"
+            try:
+                (n, etag) = store.import_one(name, ctype, [body], message="m")
+                accepted = True
+            except ns["store"].InvalidFileContents:
+                accepted = False
+            listing = [n for (n, ct, e) in store.iter_with_etag()]
+            if not good:
+                ok = (not accepted) and listing == []
+                return (bool(ok), "invalid")
+            if not accepted or listing != [name]:
+                return (False, "valid-refused")
+            served = b"".join(store.get_file(name, ctype).content)
+            (n2, etag2) = store.import_one(name, ctype, [served], message="m2")
+            ok = etag2 == etag and b"".join(store.get_file(name, ctype).content) == served
+            if not backend_vdir:
+                c1 = store.get_ctag()
+                store.import_one(name, ctype, [served], message="m3")
+                ok = ok and store.get_ctag() == c1
+            return (bool(ok), "valid")
+        finally:
+            shutil.rmtree(d, ignore_errors=True)
+
+
+def _load_pristine():
+    """Fresh copies of the xandikos store / file modules, untouched by the model substitution."""
+    import importlib
+    import importlib.util
+    import sys
+    out = {}
+    saved = {k: v for k, v in sys.modules.items() if k == "xandikos" or k.startswith("xandikos.")}
+    for k in list(saved):
+        del sys.modules[k]
+    try:
+        out["store"] = importlib.import_module("xandikos.store")
+        out["git"] = importlib.import_module("xandikos.store.git")
+        out["vdir"] = importlib.import_module("xandikos.store.vdir")
+        out["icalendar"] = importlib.import_module("xandikos.icalendar")
+        out["vcard"] = importlib.import_module("xandikos.vcard")
+    finally:
+        for k in [k for k in sys.modules if k == "xandikos" or k.startswith("xandikos.")]:
+            del sys.modules[k]
+        sys.modules.update(saved)
+    return out
+
+
+_PRISTINE = _load_pristine()
+
+
+def h_corpus(i: int, backend_vdir: bool) -> bool:
+    """
+    pre: 0 <= i < len(CORPUS)
+    post: _
+    """
+    return run(body_corpus, i, backend_vdir)
+
+
 _B = {"quick": {"blen": 2, "flen": 2, "tlen": 2}, "thorough": {"blen": 3, "flen": 3, "tlen": 3}}
 
 HARNESSES = [
@@ -196,6 +305,13 @@ HARNESSES = [
                      "the normalised body",
             encodes=["xandikos.webdav.PutMethod.handle", "xandikos.web.ObjectResource.set_body",
                      "xandikos.web.StoreBasedCollection.create_member"]),
+    Harness("corpus", h_corpus, body_corpus, classes=["valid", "invalid"], budget={"quick": 60, "thorough": 120},
+            describe="17 real bodies (valid ones + one member of each invalid class) through the REAL icalendar / vobject "
+                     "parsers on a real MemoryRepo-backed BareGitStore and a real VdirStore: invalid => refused, nothing "
+                     "stored; valid => stored and a fixed point of upload.  Corpus-based (solver chooses the index)",
+            encodes=["xandikos.icalendar.ICalendarFile.validate", "xandikos.icalendar.ICalendarFile.normalized",
+                     "xandikos.vcard.VCardFile.validate", "xandikos.vcard.VCardFile.addressbook",
+                     "xandikos.store.git.GitStore.import_one", "xandikos.store.vdir.VdirStore.import_one"]),
     Harness("vcard_framing", h_vcard_framing, body_vcard_framing, classes=["accepted", "unframed", "parser-rejects"],
             bounds=_B, budget={"quick": 60, "thorough": 300},
             describe="VCardFile.validate: BEGIN:VCARD / END:VCARD framing around symbolic bytes; vobject stubbed",
